@@ -170,7 +170,9 @@ theorem rmLink_db (dry : Bool) (t : Name) (st : World × List Ev) (p d : Path) :
   split
   · cases dry <;> rfl
   · split
-    · split <;> rfl
+    · split
+      · rfl
+      · cases dry <;> rfl
     · rfl
 
 theorem rmTarget_db (dry : Bool) (t : Name) (st : World × List Ev) (p : Path) :
